@@ -34,7 +34,8 @@ ASSUMPTIONS = [
 RULE = ("seeded generator (VERIF_SEED): the standard's vector; all 128 single-bit keys and blocks; all-zero/all-one key x block; every byte value "
         "through every S-box lane of the first round (256 x 4 x enc/dec) and a fifth of the values through each key-schedule lane; random and "
         "special (single bit set/cleared, repeated byte) keys and blocks; histories of 1..12 (thorough 40) interleaved Encrypt/Decrypt calls on one "
-        "object with repeated and fed-back blocks; dst==src, disjoint and partially overlapping windows of one backing array; key lengths 0..64; "
+        "object with repeated and fed-back blocks; the same with the caller's key buffer overwritten in place after NewCipher returned (zeroed, one bit "
+        "flipped, replaced) and one src / one dst array reused for every call; dst==src, disjoint and partially overlapping windows of one backing array; key lengths 0..64; "
         "n-fold in-place encryption (quick 2000, thorough 1,000,000 = Annex A.2). A case is non-trivial unless it is a key-length case; "
         "distinct = distinct case text")
 
@@ -143,6 +144,17 @@ def predicate(f, io):
         for o, got in zip(ops, outs):
             if _unhex(got) != sm4_block(key, _unhex(o[1:]), o[0] == "d"):
                 return False, "result depends on the blocks the object processed before (or is not SM4)"
+        return True, ""
+    if op == "N":
+        ops = f[4].split(",")
+        outs = io[1].split(",")
+        if len(outs) != len(ops) or len(io) != 3:
+            return False, "history: wrong number of results"
+        for o, got in zip(ops, outs):
+            if _unhex(got) != sm4_block(key, _unhex(o[1:]), o[0] == "d"):
+                return False, "after the caller overwrote its key buffer the cipher object no longer computes SM4 under the key it was created with"
+        if io[2] != f[3]:
+            return False, "the cipher object wrote to the caller's key buffer"
         return True, ""
     if op == "A":
         mem = _unhex(f[4])
